@@ -466,8 +466,8 @@ def xml_safe(specs):
 
 
 def bracket_after_values(pairs):
-    """the shape of the open finding value_list_swallows_bracket: in the Property part a list of searched
-    values is followed by a pair whose text contains a closing square bracket"""
+    """the shape of the repaired finding value_list_swallows_bracket (ae1f0aa): in the Property part a list of
+    searched values is followed by a pair whose text contains a closing square bracket"""
     seen = False
     for p in pairs:
         if p["k"] != "Prop":
@@ -477,6 +477,54 @@ def bracket_after_values(pairs):
         elif seen and "]" in p["v"]:
             return True
     return False
+
+
+BRACKET_TEXTS = ["[x]", "a]", "]", "x] y", "[a] [b]", "[20]"]
+
+
+def bracket_shape(rng, docs):
+    """The shape of the repaired finding value_list_swallows_bracket for the model-tied streams: a list of
+    searched values followed by one or two pairs of the Property whose text contains a closing square
+    bracket (`bracket_after_values`), every text sayable in the string form. The document specs are completed
+    so that Properties carry the text (the one that holds the values more often than not); the values are
+    those of one Property of the documents, now and then with one that has a bracket or is foreign."""
+    ok = lambda v: v and not re.search(r"[,():\"]", v) and v == v.strip()
+    props = [p for x in spec_secs(docs) for p in x["props"]]
+    cands = []
+    for p in props:
+        texts = [text_of(v) for v in p.get("values") or []]
+        if texts and all(t is not None and ok(t) for t in texts):
+            cands.append((p, texts))
+    attrs = ["definition", "reference", "unit", "value_origin"]
+    rng.shuffle(attrs)
+    text = rng.choice(BRACKET_TEXTS)
+    if cands:
+        holder, texts = rng.choice(cands)
+        vs = rng.sample(texts, min(len(texts), rng.choice([1, 1, 2])))
+        carriers = [p for p in props if (p is holder and rng.random() < 0.8) or (p is not holder and rng.random() < 0.3)]
+    else:
+        vs = [rng.choice(["20", "x"])]
+        carriers = [p for p in props if rng.random() < 0.5]
+    for p in carriers:
+        p[attrs[0]] = text
+    if rng.random() < 0.15:
+        vs[-1] = rng.choice(["21", "[x", "x]", "[20]"])
+    pairs = [{"k": "Prop", "a": "value", "v": "", "vs": vs},
+             {"k": "Prop", "a": attrs[0], "v": text if rng.random() < 0.85 else "other]", "vs": []}]
+    if rng.random() < 0.35:
+        text2 = rng.choice(BRACKET_TEXTS + ["[", "x"])
+        for p in carriers:
+            if rng.random() < 0.7:
+                p[attrs[1]] = text2
+        pairs.append({"k": "Prop", "a": attrs[1], "v": text2, "vs": []})
+    return pairs
+
+
+def with_bracket_shape(shape, pairs, limit):
+    """the shape first (value list before the bracket texts), then up to `limit` of the other pairs that do
+    not ask for an attribute of the shape again"""
+    taken = [(q["k"], q["a"]) for q in shape]
+    return shape + [q for q in pairs if (q["k"], q["a"]) not in taken][:limit]
 
 
 def turtle_safe(x):
@@ -497,9 +545,10 @@ def string_safe(pairs, with_finding=False):
     ends. A line feed inside a value is no syntax character: since the repair of
     string_form_line_feed (a288f96) such a value goes through the string form in every stream.
     Round 5: the list of searched values has a string form too, value:[v1, v2] (the only notation the parser
-    reads; the `value:20` of one docstring example is not read as a value pair and is not demanded). The shape
-    of the open finding value_list_swallows_bracket takes the string form in the oracle-only stream `sets`
-    only (with_finding), the model-tied streams send it through the dictionary."""
+    reads; the `value:20` of one docstring example is not read as a value pair and is not demanded). Since the
+    repair of value_list_swallows_bracket (ae1f0aa) a value list followed by a pair whose text contains a
+    closing square bracket (`bracket_after_values`) takes the string form in every stream, the model-tied ones
+    included (`with_finding` is kept for the callers and has no effect any more)."""
     ok = lambda v: not re.search(r"[,():\"]", v) and v == v.strip() and v
     for p in pairs:
         if p["a"] == "value" and p["k"] == "Prop":
@@ -507,7 +556,7 @@ def string_safe(pairs, with_finding=False):
                 return False
         elif p["a"] == "value" or not ok(p["v"]):
             return False
-    return with_finding or not bracket_after_values(pairs)
+    return True
 
 
 def parse_output(text):
@@ -772,6 +821,8 @@ class C20(fw.Check):
             else:
                 case["mode"] = "match"
                 case["pairs"] = self.small_pairs(rng, both, 3)
+                if i % 6 == 3:
+                    case["pairs"] = with_bracket_shape(bracket_shape(rng, both), case["pairs"], 1)
             steps = []
             for _s in range(rng.choice([2, 2, 3])):
                 steps.append({"g": rng.randrange(len(sets)),
@@ -783,6 +834,9 @@ class C20(fw.Check):
             # the caller's dictionary is used at least twice
             steps[0]["params"] = "same"
             steps[-1]["params"] = rng.choice(["same", "same", "inner"])
+            if case["mode"] == "match" and i % 6 == 3:
+                # the bracket shape goes through the string form between two uses of the caller's dictionary
+                steps.insert(1, dict(steps[0], params="str", pre=None))
             case["steps"] = steps
             cases.append(case)
         return cases
@@ -809,6 +863,7 @@ class C20(fw.Check):
                     x["repository"] = rng.choice(REPOS)
             if i % 5 == 4:
                 wordify(rng, docs, rng.choice(sorted(WORD_FAMILIES)))
+            shape = bracket_shape(rng, docs) if i % 6 == 1 else None
             opts = gen_opts(rng, docs)
             steps, asked = [], []
             for si in range(rng.choice([2, 2, 3])):
@@ -846,6 +901,9 @@ class C20(fw.Check):
             else:
                 case["mode"] = "match"
                 case["pairs"] = pairs
+                if shape:
+                    case["pairs"] = with_bracket_shape(shape, pairs, 1)
+                    case["how"] = "str"
             cases.append(case)
         return cases
 
@@ -1143,6 +1201,9 @@ class C20(fw.Check):
                               "parser": rng.choice(["new", "new", "same"]), "repeat": rng.random() < 0.3,
                               "opts": {"shape": opts["shape"], "korder": opts["korder"], "sorder": opts["sorder"],
                                        "words": opts["words"]}})
+            if _i % 8 == 3:
+                steps[-1]["pairs"] = with_bracket_shape(bracket_shape(rng, docs), steps[-1]["pairs"], 1)
+                steps[-1]["entry"] = "str"
             case = {"stream": "creator", "docs": docs, "steps": steps, "writer": gen_writer(rng, docs)}
             if rng.random() < 0.08 and self.all_secs(docs):
                 # a value with a SPARQL code point escape (open finding codepoint_escape_in_value)
@@ -1172,6 +1233,14 @@ class C20(fw.Check):
             else:
                 pairs = self.gen_pairs(rng, docs, i % 4 == 1)
                 rng.shuffle(pairs)
+                if i % 16 == 5:
+                    # since the repair of value_list_swallows_bracket (ae1f0aa): a value list followed by
+                    # pairs with a closing bracket in their text, model-tied, the string form preferred
+                    # (the other form is compared in any case)
+                    pairs = with_bracket_shape(bracket_shape(rng, docs), pairs, 2)
+                    if rng.random() < 0.25:
+                        rng.shuffle(pairs)
+                    how = "str" if rng.random() < 0.75 else how
                 cases.append({"stream": "match", "docs": docs, "pairs": pairs,
                               "how": how, "opts": gen_opts(rng, docs)})
         cases += self.gen_reuse(rng, 44 if tier == "quick" else 400)
@@ -2064,31 +2133,11 @@ class C20(fw.Check):
         return out
 
     def finding_key(self, case, obs, failure):
-        # One open finding (round 5): value_list_swallows_bracket. The repaired ones have no branch, so a
-        # regression is a VIOLATION: finder_keeps_first_graph, empty_graph_refused, parser_keeps_earlier_kinds,
-        # string_form_line_feed (work-fixC20), codepoint_escape_in_value (6c1fc7c), and the three queries that
-        # needed another shape: typed_literal_never_matches (eb38590), value_query_bag_vs_seq (573e2b8),
-        # id_repository_never_match (57076b7).
-        return self.bracket_key(case, obs, failure)
-
-    @staticmethod
-    def bracket_key(case, obs, failure):
-        """value_list_swallows_bracket, narrowly: only in the oracle-only stream `sets`, only a match search
-        that went through the STRING form, whose Property part has a list of searched values followed by a
-        pair whose text contains ']' (the parser reads the list up to the last ']' of the Property part) -
-        the string form then differs from the dictionary form / reports rows of other pairs."""
-        try:
-            if case.get("stream") != "sets" or obs.get("mode") != "match" or obs.get("used") != "str":
-                return None
-            if not bracket_after_values(obs.get("pairs") or []):
-                return None
-            if failure == "string and dictionary form of the query give different answers" or \
-                    failure.startswith("combination ") or failure.startswith("reported row sets differ") or \
-                    failure.startswith("a block is reported that belongs to no combination") or \
-                    failure.startswith("a combination is reported more than once"):
-                return "value_list_swallows_bracket"
-        except Exception:
-            pass
+        # No open finding. The repaired ones have no branch, so a regression is a VIOLATION:
+        # finder_keeps_first_graph, empty_graph_refused, parser_keeps_earlier_kinds, string_form_line_feed
+        # (work-fixC20), codepoint_escape_in_value (6c1fc7c), the three queries that needed another shape:
+        # typed_literal_never_matches (eb38590), value_query_bag_vs_seq (573e2b8), id_repository_never_match
+        # (57076b7), and value_list_swallows_bracket (ae1f0aa, work-fixC20c).
         return None
 
     @staticmethod
